@@ -35,6 +35,122 @@ impl tower::Service<http::request::Parts> for OneShot {
     }
 }
 
+/// Inner transport for request *sequences* through one pooled client: every call gets a fresh in-memory
+/// stream; a peer task per connection records every raw byte and answers plaintext HTTP/1.1 requests with
+/// `200` (keep-alive). A connection that starts with a TLS record is recorded and closed.
+#[derive(Clone)]
+struct ManyPlainPeers {
+    exec: crate::det::Exec,
+    /// (scheme of the request the connection was dialled for, raw bytes received)
+    conns: Arc<Mutex<Vec<(String, Arc<Mutex<Vec<u8>>>)>>>,
+}
+impl tower::Service<http::request::Parts> for ManyPlainPeers {
+    type Response = DuplexStream;
+    type Error = std::io::Error;
+    type Future = std::future::Ready<Result<DuplexStream, std::io::Error>>;
+    fn poll_ready(&mut self, _: &mut Context<'_>) -> Poll<Result<(), Self::Error>> {
+        Poll::Ready(Ok(()))
+    }
+    fn call(&mut self, parts: http::request::Parts) -> Self::Future {
+        use hyper::rt::Executor;
+        let (near, mut far) = DuplexStream::new(16384);
+        let raw = Arc::new(Mutex::new(Vec::new()));
+        self.conns.lock().unwrap().push((parts.uri.scheme_str().unwrap_or("").to_string(), raw.clone()));
+        self.exec.execute(async move {
+            let mut pending = Vec::new();
+            let mut buf = [0u8; 1024];
+            loop {
+                let n = match far.read(&mut buf).await {
+                    Ok(0) | Err(_) => break,
+                    Ok(n) => n,
+                };
+                raw.lock().unwrap().extend_from_slice(&buf[..n]);
+                pending.extend_from_slice(&buf[..n]);
+                if pending.first() == Some(&0x16) {
+                    break; // a TLS record: this peer does not speak TLS, it hangs up
+                }
+                while let Some(pos) = pending.windows(4).position(|w| w == b"\r\n\r\n") {
+                    pending.drain(..pos + 4);
+                    if far.write_all(b"HTTP/1.1 200 OK\r\ncontent-length: 0\r\n\r\n").await.is_err() {
+                        return;
+                    }
+                }
+            }
+        });
+        std::future::ready(Ok(near))
+    }
+}
+
+/// Two requests in a row through ONE pooled client with a TLS configuration, to the same host and port, the
+/// first with a plaintext scheme, the second with a TLS scheme: the second request's bytes must not travel
+/// on the (idle, pooled) plaintext connection of the first. Returns (runs, violations).
+pub fn scheme_pairs(fx: &Fx) -> (u64, Vec<(String, String, serde_json::Value)>) {
+    let mut n = 0;
+    let mut out = vec![];
+    for (first, second) in [("http", "https"), ("ws", "wss"), ("http", "wss"), ("ws", "https")] {
+        for authority in ["example.com:8443", "example.com:443", "example.com:80", "[::1]:8443"] {
+            n += 1;
+            let mut s = Sched::new(vec![]);
+            let conns: Arc<Mutex<Vec<(String, Arc<Mutex<Vec<u8>>>)>>> = Default::default();
+            let transport = ManyPlainPeers { exec: s.exec.clone(), conns: conns.clone() };
+            let cfg = (*fx.client_plain).clone();
+            let built = std::panic::catch_unwind(std::panic::AssertUnwindSafe(|| hyperdriver::Client::builder().with_auto_http().with_transport(transport).with_default_pool().without_timeout().with_tls(cfg).build()));
+            let Ok(client) = built else {
+                out.push((format!("scheme-pair panic {first}->{second}"), "building the client panicked".into(), json!({"engine":"c12-pairs"})));
+                continue;
+            };
+            let results: Arc<Mutex<Vec<String>>> = Default::default();
+            let res2 = results.clone();
+            let (u1, u2) = (format!("{first}://{authority}/first-plain"), format!("{second}://{authority}/second-secret-9c1d"));
+            s.spawn("client", async move {
+                let mut client = client;
+                for u in [u1, u2] {
+                    let req = http::Request::get(u).body(hyperdriver::Body::empty()).unwrap();
+                    let r = client.request(req).await;
+                    let text = match r {
+                        Ok(resp) => {
+                            let st = resp.status();
+                            // read the body to its end so that the connection goes back to the pool
+                            let _ = http_body_util::BodyExt::collect(resp.into_body()).await;
+                            format!("ok {st}")
+                        }
+                        Err(e) => format!("err {e}"),
+                    };
+                    res2.lock().unwrap().push(text);
+                    yield_now().await;
+                    yield_now().await;
+                }
+            });
+            s.run();
+            let panics = s.panics();
+            s.teardown();
+            for (t, p) in panics {
+                out.push((format!("scheme-pair panic {first}->{second}"), format!("task {t} panicked: {p}"), json!({"engine":"c12-pairs"})));
+            }
+            let conns = conns.lock().unwrap();
+            for (i, (scheme, raw)) in conns.iter().enumerate() {
+                let raw = raw.lock().unwrap();
+                let clear = String::from_utf8_lossy(&raw);
+                if clear.contains("second-secret-9c1d") {
+                    out.push((
+                        format!("plaintext-on-pooled-connection {first}->{second}"),
+                        format!("after {first}://{authority}/, the request {second}://{authority}/second-secret-9c1d was sent in the clear on connection #{i} (dialled for scheme {scheme}): {:?}; client results {:?}", clear.lines().next().unwrap_or(""), results.lock().unwrap()),
+                        json!({"engine":"c12-pairs","first":first,"second":second,"authority":authority}),
+                    ));
+                }
+                let tlsish = scheme.eq_ignore_ascii_case("https") || scheme.eq_ignore_ascii_case("wss");
+                if tlsish && !raw.is_empty() && raw[0] != 0x16 {
+                    out.push((format!("first-byte-not-tls-on-pooled {first}->{second}"), format!("connection #{i} dialled for {scheme}://{authority} starts with byte {:#x}", raw[0]), json!({"engine":"c12-pairs","first":first,"second":second,"authority":authority})));
+                }
+            }
+            if results.lock().unwrap().first().map(|r| r.starts_with("ok")) != Some(true) {
+                out.push((format!("scheme-pair first-request-failed {first}"), format!("the plaintext request {first}://{authority}/ did not succeed: {:?}", results.lock().unwrap()), json!({"engine":"c12-pairs"})));
+            }
+        }
+    }
+    (n, out)
+}
+
 /// Peer-side tap: records what the client sent (raw), and limits what the peer may send back.
 struct Tap {
     inner: DuplexStream,
@@ -582,6 +698,21 @@ fn leak(s: &str) -> &'static str {
 fn replay(path: &str, fx: &Fx) -> i32 {
     let doc: serde_json::Value = serde_json::from_str(&std::fs::read_to_string(path).expect("replay file")).expect("json");
     let rp = doc.get("replay").cloned().unwrap_or(doc);
+    if rp.get("engine").and_then(|x| x.as_str()) == Some("c12-pairs") {
+        std::panic::set_hook(Box::new(|_| {}));
+        let (_, viols) = scheme_pairs(fx);
+        let _ = std::panic::take_hook();
+        for (sig, what, _) in &viols {
+            println!("  {sig}: {what}");
+        }
+        return if viols.is_empty() {
+            println!("replay holds");
+            0
+        } else {
+            println!("VIOLATION property=C12 replay={path}");
+            1
+        };
+    }
     let pj = rp.get("peer_spec").cloned().unwrap_or_default();
     let peer = match pj.get("kind").and_then(|x| x.as_str()) {
         Some("tls") => Peer::Tls {
@@ -652,6 +783,12 @@ pub fn run(args: &Args) -> i32 {
     let probe_ip = run_case(&Case { scheme: "wss", host: "[::1]", port: Some(8443), peer: Peer::Tls { cert: "iphost", alpn: ALPNS[0], truncate: None, stall: false }, client_alpn: false, via_client: false, io: IoShape::default() }, &fx);
     let flight_len_ip = probe_ip.peer_sent_at_connect.map(|n| n.saturating_sub(8)).unwrap_or(flight_len);
     let cs = cases(args.tier.is_thorough(), flight_len, flight_len_ip);
+    // request sequences through one pooled client: plaintext scheme first, TLS scheme second, same host and port
+    let (pair_runs, pair_viols) = scheme_pairs(&fx);
+    run.cov("scheme_pair_sequences_through_one_pooled_client", pair_runs);
+    for (sig, what, rp) in pair_viols {
+        run.violation(sig, what, rp);
+    }
     let threads = crate::evidence::n_threads();
     let results = crate::evidence::par_map(cs.len(), threads, |i| {
         let c = cs[i].clone();
